@@ -61,6 +61,8 @@ pub enum Profile {
     /// long histories over a narrow alphabet (fill a chunk, cross it, reset, shrink/grow/free the last block,
     /// fail an initialiser, move the limit): depth where the rich profiles cannot go
     Deep,
+    /// Deep plus hand-overs of the arena to another thread (C20)
+    DeepHop,
     /// C16: panicking callbacks inside arena methods
     Panics,
     /// allocator-API sweep: every finger offset x block size/alignment x shrink/grow to every size and
@@ -645,7 +647,7 @@ impl ArenaModel {
                 a.push(Act::UniSliceFail { al, len: big, fail_at: big - 1 });
                 a.push(Act::Reset { probe: false });
             }
-            Profile::Deep => {
+            Profile::Deep | Profile::DeepHop => {
                 lay(&mut a, true, &[8], &[0, 4]);
                 if cap > 8 {
                     lay(&mut a, true, &[cap], &[0]);
@@ -665,7 +667,9 @@ impl ArenaModel {
                 a.push(Act::TryWith { fallible: true, ty: Ty::U64, ok: false, inner: Inner::AllocKeep, probe: false, esz: 0 });
                 a.push(Act::Slice { m: SM::InitTryFillWith, el: El::U64, len: 3, fail_at: 1, inner: Inner::Nothing });
                 a.push(Act::Reset { probe: false });
-                a.push(Act::ThreadHop);
+                if self.profile == Profile::DeepHop {
+                    a.push(Act::ThreadHop);
+                }
                 if nraw > 1 {
                     // the block below the newest one (e.g. the one allocated before a hand-over)
                     let (s1, a1) = raw_sz(1).unwrap();
@@ -723,6 +727,9 @@ impl ArenaModel {
                         a.push(Act::Allocate { size: 1, al: 0 });
                         a.push(Act::Allocate { size: 8, al: 3 });
                         a.push(Act::Layout { fallible: true, size: 3, al: 1 });
+                        // slices the arena itself initialises: if they are placed on a live block its bytes change (C02)
+                        a.push(Act::Slice { m: SM::FillCopy, el: El::U8, len: 24, fail_at: NO_FAIL, inner: Inner::Nothing });
+                        a.push(Act::Slice { m: SM::FillCopy, el: El::U64, len: 2, fail_at: NO_FAIL, inner: Inner::Nothing });
                         a.push(Act::CapProbe);
                     }
                 }
